@@ -158,6 +158,11 @@ func TestForwarder(t *testing.T) {
 			if bad {
 				interesting = true
 				payload := rapid.SampledFrom(malformed).Draw(t, "malformed")
+				if rapid.IntRange(0, 2).Draw(t, "derivedFromValidEnvelope") == 0 {
+					// a complete valid envelope followed by something else is not a valid envelope
+					valid := `{"destination_topic":"dest","uuid":"u","payload":"cA==","metadata":{"a":"b"}}`
+					payload = valid + rapid.SampledFrom([]string{"}", " trailing", valid, "\n{}", "]", "0"}).Draw(t, "trailing")
+				}
 				before := len(d.Calls())
 				ds, acked := deliver(t, d, subs[0], func() *message.Message { return message.NewMessage("bad", []byte(payload)) }, 1)
 				if len(d.Calls()) != before {
@@ -322,7 +327,7 @@ func TestRequeuer(t *testing.T) {
 		canon := fmt.Sprintf("rq|%d|%v|%v|", delayMs, cancelMode, d.failOn)
 		for i := 0; i < n; i++ {
 			s := lib.GenSnap().Draw(t, "msg")
-			retriesIn := rapid.SampledFrom([]string{"<missing>", "garbage", "0", "1", "7", "1000000000", "", "-3"}).Draw(t, "retriesCounter")
+			retriesIn := rapid.SampledFrom([]string{"<missing>", "garbage", "0", "1", "7", "1000000000", "", "-3", "9223372036854775808", "99999999999999999999", "-99999999999999999999", "1e3", " 4"}).Draw(t, "retriesCounter")
 			delete(s.Meta, requeuer.RetriesKey)
 			if retriesIn != "<missing>" {
 				s.Meta[requeuer.RetriesKey] = retriesIn
@@ -526,5 +531,91 @@ func TestFanOut(t *testing.T) {
 		wg.Wait()
 		lib.Case(canon, ns >= 2, "fanout")
 		lib.Sample(map[string]any{"test": "FanOut", "case": canon})
+	})
+}
+
+// forwarder.Publisher used from several goroutines: every call must hand exactly its own messages,
+// enveloped, to the wrapped publisher.
+func TestForwarderPublisherConcurrent(t *testing.T) {
+	rapid.Check(t, func(t *rapid.T) {
+		ng := rapid.IntRange(2, 8).Draw(t, "goroutines")
+		rounds := rapid.IntRange(1, 4).Draw(t, "callsEach")
+		latencyUs := rapid.SampledFrom([]int{0, 50, 300}).Draw(t, "transportLatencyUs")
+		capture := lib.NewScriptPub("")
+		capture.OnPublish = func(*lib.PubCall) error {
+			if latencyUs > 0 {
+				time.Sleep(time.Duration(latencyUs) * time.Microsecond)
+			}
+			return nil
+		}
+		fpub := forwarder.NewPublisher(capture, forwarder.PublisherConfig{})
+		// warm-up call (gives any reused buffer a capacity)
+		if err := fpub.Publish("warm", message.NewMessage("warm", nil), message.NewMessage("warm2", nil)); err != nil {
+			t.Fatalf("warm-up publish failed: %v", err)
+		}
+		sizes := make([][]int, ng)
+		for g := range sizes {
+			for r := 0; r < rounds; r++ {
+				sizes[g] = append(sizes[g], rapid.IntRange(1, 3).Draw(t, "batch"))
+			}
+		}
+		var wg sync.WaitGroup
+		start := make(chan struct{})
+		errs := make(chan error, ng*rounds)
+		for g := 0; g < ng; g++ {
+			wg.Add(1)
+			go func(g int) {
+				defer wg.Done()
+				<-start
+				for r, n := range sizes[g] {
+					var batch []*message.Message
+					for i := 0; i < n; i++ {
+						batch = append(batch, message.NewMessage(fmt.Sprintf("g%d-r%d-m%d", g, r, i), []byte("x")))
+					}
+					if err := fpub.Publish(fmt.Sprintf("dest-g%d", g), batch...); err != nil {
+						errs <- err
+					}
+				}
+			}(g)
+		}
+		close(start)
+		wg.Wait()
+		select {
+		case err := <-errs:
+			t.Fatalf("violation: concurrent Publish failed: %v", err)
+		default:
+		}
+		got := map[string]int{}
+		for _, pc := range capture.Calls()[1:] {
+			var g0 = -1
+			for _, env := range pc.Snaps {
+				topic, m, err := forwarder.VerifUnwrapMessageFromEnvelope(env.Msg())
+				if err != nil {
+					t.Fatalf("violation: forwarder.Publisher handed over something that is not an envelope: %v", err)
+				}
+				var g, r, i int
+				fmt.Sscanf(m.UUID, "g%d-r%d-m%d", &g, &r, &i)
+				if topic != fmt.Sprintf("dest-g%d", g) {
+					t.Fatalf("violation: message %s was enveloped for topic %q", m.UUID, topic)
+				}
+				if g0 >= 0 && g != g0 {
+					t.Fatalf("violation: one Publish call of the wrapped publisher mixes messages of two callers")
+				}
+				g0 = g
+				got[m.UUID]++
+			}
+		}
+		for g := range sizes {
+			for r, n := range sizes[g] {
+				for i := 0; i < n; i++ {
+					id := fmt.Sprintf("g%d-r%d-m%d", g, r, i)
+					if got[id] != 1 {
+						t.Fatalf("violation: message %s published through forwarder.Publisher reached the forwarder topic %d times (concurrent callers: %d)", id, got[id], ng)
+					}
+				}
+			}
+		}
+		lib.Case(fmt.Sprintf("fwdpubconc|%d|%v|%d", ng, sizes, latencyUs), true, "forwarder-publisher-concurrent")
+		lib.Sample(map[string]any{"test": "ForwarderPublisherConcurrent", "goroutines": ng, "batches": sizes})
 	})
 }
